@@ -313,7 +313,8 @@ def cache_embeddings(func):
         embedding_model = getattr(self, "embedding_model", None)
         if embedding_model:
             embedding_engine = getattr(self, "embedding_engine", None)
-            embeddings_cache._namespace = f"{embedding_engine}/{embedding_model}\n"
+            # json: unambiguous whatever characters the two names contain
+            embeddings_cache._namespace = json.dumps([embedding_engine, embedding_model]) + "\n"
 
         cached_texts = {}
         uncached_texts = []
